@@ -5,6 +5,8 @@ import (
 
 	"pgregory.net/rapid"
 
+	"github.com/yorkie-team/yorkie/pkg/document/time"
+
 	"verifharness/prog"
 	"verifharness/world"
 )
@@ -17,6 +19,22 @@ func runWithHistory(p prog.Program, tag string, sessionsRestart bool) (Outcome, 
 		ProjTag: tag,
 		Guard:   guardFor("C01", p),
 		OnExchange: func(r *prog.Runner, pe *prog.Peer, ex *world.Exchange) {
+			if h.LogVV == nil {
+				h.LogVV = func(upTo int64) (time.VersionVector, int64) {
+					vv, lamp := time.NewVersionVector(), int64(0)
+					infos, _, err := r.Log()
+					if err != nil {
+						return vv, 0
+					}
+					for _, ci := range infos {
+						if ci.ServerSeq <= upTo && len(ci.Operations) > 0 {
+							vv.Max(&ci.VersionVector)
+							lamp = max(lamp, ci.Lamport)
+						}
+					}
+					return vv, lamp
+				}
+			}
 			h.OnExchange(pe, ex)
 			if f := h.Fail(); f != nil && r.ExFail == nil {
 				r.ExFail = f
